@@ -862,6 +862,48 @@ Section Generate2.
       rewrite Hne in He. cbn [orb] in He.
       rewrite (cmp_trans _ _ _ _ Hle He) in Em2. discriminate.
   Qed.
+  (* A program's entry depends only on that program's own records (and the
+     known Go versions, its module's proxy list, its padding): not on the other
+     programs of the configuration, their order, nor on whether they share the
+     module. *)
+  Lemma versions_for_ext p1 p2 : p_name p1 = p_name p2 -> p_module p1 = p_module p2 ->
+    (forall v, eligible vcmp (is_toolchain (p_name p1)) (p_min p1) v
+               = eligible vcmp (is_toolchain (p_name p2)) (p_min p2) v) ->
+    vfor p1 = vfor p2.
+  Proof.
+    intros Hn Hm He. unfold versions_for. rewrite <- Hn, <- Hm. rewrite <- Hn in He.
+    destruct (is_toolchain (p_name p1)) eqn:Htc.
+    - f_equal. apply filter_ext. intros v. rewrite He. reflexivity.
+    - destruct (lookup (p_module p1) proxy) as [vs|]; [|reflexivity].
+      destruct (forallb (is_valid false) vs); [|reflexivity].
+      destruct (lookup (p_name p1) paddings) as [pd|]; [|reflexivity].
+      rewrite (filter_ext _ _ He). reflexivity.
+  Qed.
+
+  Theorem generate_entry_of_own_records gcfgs1 gcfgs2 out1 out2 o1 o2 :
+    gen gcfgs1 = GOk out1 -> gen gcfgs2 = GOk out2 -> In o1 out1 -> In o2 out2 ->
+    o_name o1 = o_name o2 -> recs (o_name o1) gcfgs1 = recs (o_name o1) gcfgs2 -> o1 = o2.
+  Proof.
+    intros H1 H2 Ho1 Ho2 Hn Hr.
+    destruct (gen_ok gcfgs1 out1 H1) as [a1 [HF1 [Hin1 _]]]. destruct (gen_ok gcfgs2 out2 H2) as [a2 [HF2 [Hin2 _]]].
+    apply Hin1 in Ho1. apply Hin2 in Ho2.
+    destruct (Forall2_in_r _ _ _ o1 HF1 Ho1) as [p1 [Hp1 [N1 [C1 [S1 V1]]]]].
+    destruct (Forall2_in_r _ _ _ o2 HF2 Ho2) as [p2 [Hp2 [N2 [C2 [S2 V2]]]]].
+    destruct (group_inv vcmp cmp_trans cmp_total gcfgs1) as [_ [_ Hok1]].
+    destruct (group_inv vcmp cmp_trans cmp_total gcfgs2) as [_ [_ Hok2]].
+    destruct (Hok1 p1 Hp1) as [_ [Pc1 [Ps1 [[r1 [rest1 [Hr1 Hm1]]] He1]]]].
+    destruct (Hok2 p2 Hp2) as [_ [Pc2 [Ps2 [[r2 [rest2 [Hr2 Hm2]]] He2]]]].
+    assert (p_name p1 = p_name p2) as Hpn by congruence.
+    rewrite <- N1 in He1, Pc1, Ps1, Hr1.
+    rewrite <- N2, <- Hn in He2, Pc2, Ps2, Hr2. rewrite <- Hr in He2, Pc2, Ps2, Hr2.
+    assert (vfor p1 = vfor p2) as Hv.
+    { apply versions_for_ext.
+      - exact Hpn.
+      - rewrite Hr1 in Hr2. injection Hr2 as <- _. congruence.
+      - intros v. rewrite <- N1, <- N2, <- Hn. rewrite He1, He2. reflexivity. }
+    rewrite Hv, V2 in V1. injection V1 as V1.
+    destruct o1, o2. cbn in *. congruence.
+  Qed.
 End Generate2.
 
 (* ------------------------------------------------------------ padVersions is partial *)
